@@ -43,7 +43,14 @@ func cmdAlias(args []string) {
 		mutate := func() {
 			// the caller scribbles over its own data
 			d := caller[r.Intn(len(caller))]
-			switch r.Intn(3) {
+			switch r.Intn(4) {
+			case 3:
+				// the caller extends its own program (writes into its slice's spare capacity, if any) and cuts it back
+				n := len(d.Code)
+				for k := 0; k < n+2; k++ {
+					d.Code = append(d.Code, genIns(r, cfg.M).g())
+				}
+				d.Code = d.Code[:n]
 			case 0:
 				d.Code[r.Intn(len(d.Code))] = genIns(r, cfg.M).g()
 			case 1:
@@ -59,6 +66,12 @@ func cmdAlias(args []string) {
 			wd := genWarrior(r, cfg.M, r.Intn(2) == 0)
 			orig = append(orig, wd)
 			g := wd.g()
+			if r.Intn(2) == 0 {
+				// the caller built its program in a slice with room to spare
+				roomy := make([]gmars.Instruction, len(g.Code), 4*len(g.Code)+4)
+				copy(roomy, g.Code)
+				g.Code = roomy
+			}
 			caller = append(caller, g)
 			wr, _ := b.sim.AddWarrior(g)
 			b.ws = append(b.ws, wr)
@@ -134,6 +147,9 @@ var jobTexts = []string{
 	"for 2\nj for 2\n dat j, MINDISTANCE\nrof\nrof\n",
 	"dat 1/0\n",
 	"x equ y\ny equ x\ndat x\n",
+	";assert 0\ndat 0\n",
+	";assert CORESIZE-CORESIZE\nmov 0, 1\n",
+	";assert MAXPROCESSES > 100000\nmov 0, 1\n",
 }
 
 func buildJobs(seed int64, n int, repoWarriors string) ([]job, []*gmars.WarriorData, []wdata) {
